@@ -351,7 +351,11 @@ def run(prog: Program, col: Collector, tier: str, refs: Optional[Refs] = None):
                 val = st.value if isinstance(st, (ast.Assign, ast.AnnAssign)) else None
                 where = f"{m.fq}::{norm(st)}"
                 if m.name == "__init__":
-                    if isinstance(val, ast.Name) and val.id in m.positional:
+                    rebound = isinstance(val, ast.Name) and any(isinstance(x, ast.Name) and x.id == val.id and isinstance(x.ctx, ast.Store) for x in walk_no_nested(m.node))
+                    if isinstance(val, ast.Name) and val.id in m.positional and rebound:
+                        col.violation(where, f"the interpretation stored as `self.{attr}` is not the one the caller passed: `{val.id}` is reassigned inside the constructor first, "
+                                      "so delegation skips (or replaces) the context that was active when the interpretation was created", m.loc(st))
+                    elif isinstance(val, ast.Name) and val.id in m.positional:
                         col.ok(where, "the enclosing interpretation is supplied by the caller at construction", m.loc(st))
                     elif isinstance(val, ast.Constant) and val.value is None:
                         col.note(where, "initialised to None; must be captured in __enter__", m.loc(st))
@@ -371,8 +375,57 @@ def run(prog: Program, col: Collector, tier: str, refs: Optional[Refs] = None):
                               "the current interpretation is captured on every path of __enter__, before the context is pushed",
                               "the capture of the enclosing interpretation is conditional or happens after the push: a later entry under a different "
                               "enclosing interpretation would delegate to a stale one (terms are not interpreted by the enclosing context)", m.loc(st))
+                elif m.name == "__exit__" and isinstance(val, ast.Call) and isinstance(val.func, ast.Attribute) and val.func.attr == "pop" \
+                        and isinstance(val.func.value, ast.Attribute) and isinstance(val.func.value.value, ast.Name) and val.func.value.value.id == (m.positional[0] if m.positional else ""):
+                    col.ok(where, "the delegate captured by an outer entry of the same object is restored on exit", m.loc(st))
                 else:
                     col.unresolved(where, f"delegate attribute re-assigned in {m.name}()", m.loc(st))
+            # re-entrancy: a delegate captured in __enter__ belongs to ONE entry; a nested entry of the same object overwrites it, so the value
+            # must be saved before it is overwritten and restored when the inner entry exits
+            enter_sites = [(m, st) for m, st in sites if m.name == "__enter__"]
+            if enter_sites:
+                m = enter_sites[0][0]
+                sn = m.positional[0]
+                saves = [x for x in walk_no_nested(m.node) if isinstance(x, ast.Call) and isinstance(x.func, ast.Attribute) and x.func.attr == "append"
+                         and isinstance(x.func.value, ast.Attribute) and isinstance(x.func.value.value, ast.Name) and x.func.value.value.id == sn
+                         and any(isinstance(y, ast.Attribute) and y.attr == attr and isinstance(y.value, ast.Name) and y.value.id == sn for a in x.args for y in ast.walk(a))
+                         and x.lineno < enter_sites[0][1].lineno]
+                ex = c.methods.get("__exit__")
+                restores = [st for st in (walk_no_nested(ex.node) if ex is not None else []) if isinstance(st, ast.Assign)
+                            and any(isinstance(t, ast.Attribute) and t.attr == attr for t in st.targets) and isinstance(st.value, ast.Call)
+                            and isinstance(st.value.func, ast.Attribute) and st.value.func.attr == "pop"]
+                col.check(bool(saves) and bool(restores), f"{c.fq}::self.{attr} is per entry",
+                          f"the previous `self.{attr}` is saved before `__enter__` overwrites it and restored by `__exit__`: the object can be entered again while it is active",
+                          f"`__enter__` overwrites `self.{attr}` with the interpretation active at THIS entry and nothing restores it: entering the same object again while it is active "
+                          "(`with tape: with lazy: with tape: ...`) leaves the outer entry delegating to the inner entry's context after the inner block has exited - terms built "
+                          "afterwards are interpreted by a context that is no longer on the stack", m.loc(enter_sites[0][1]))
+    # ------------------------------------------------------------------ R17.11 a recording interpretation stays innermost for compound terms
+    col.rule("R17.11", "a recording interpretation re-enters the enclosing one only around the ops it records as atomic", floor=1)
+    n_rec = 0
+    for c in subs:
+        im = c.methods.get("interpret")
+        if im is None or len(im.positional) < 2:
+            continue
+        selfn, clsn = im.positional[0], im.positional[1]
+        appends = [x for x in ast.walk(im.node) if isinstance(x, ast.Call) and isinstance(x.func, ast.Attribute) and x.func.attr == "append"
+                   and isinstance(x.func.value, ast.Attribute) and isinstance(x.func.value.value, ast.Name) and x.func.value.value.id == selfn]
+        if not appends:
+            continue
+        n_rec += 1
+        # constructions `cls(*args)` under `with self.<enclosing>:`
+        for w in [x for x in walk_no_nested(im.node) if isinstance(x, ast.With)]:
+            if not any(isinstance(it.context_expr, ast.Attribute) and isinstance(it.context_expr.value, ast.Name) and it.context_expr.value.id == selfn for it in w.items):
+                continue
+            builds = [x for st in w.body for x in ast.walk(st) if isinstance(x, ast.Call) and isinstance(x.func, ast.Name) and x.func.id == clsn]
+            for b in builds:
+                guards = [a for a in im.module.ancestors(b) if isinstance(a, ast.If) and im.module.enclosing_function(a) is im.node]
+                on_cls = any(any(isinstance(y, ast.Name) and y.id == clsn for y in ast.walk(g.test)) and any(b is y for st in g.body for y in ast.walk(st)) for g in guards)
+                col.check(on_cls, f"{im.fq}::with {selfn}.…: {norm(b)}",
+                          f"the term is rebuilt under the enclosing interpretation only when `{clsn}` is one of the ops recorded as atomic",
+                          f"`{norm(b)}` runs under the enclosing interpretation for EVERY class: the sub-terms its rules build are interpreted there and never reach this "
+                          "interpretation (they are not recorded); compound terms must be delegated with `.interpret(cls, *args)`, which keeps this context innermost", im.loc(b))
+    col.cur.analysed["recording_interpretations"] = n_rec
+
     # ------------------------------------------------------------------ R17.10 rules hand terms only downward
     col.rule("R17.10", "a rule of a partial interpretation hands a term only to layers beneath it (or declines), never to a fixed foreign total interpretation", floor=10)
     _check_downward_delegation(prog, col, refs)
